@@ -8,6 +8,12 @@
 //         [3 cmd:B params:LB [host path rawquery]]                mod_redirect: ActionFileListCheck+redirectActionsDo
 //         [4 cmd:B params:LB [host path rawquery] reqhdr]         bfe_basic/action: json.Unmarshal into action.Action
 //                                                                 (UnmarshalJSON -> ActionFileCheck) + Action.Do
+//         [6 ops]  mod_rewrite reload history on a fresh module: op = [0 [[product rules]...]] reload via loadConfData |
+//                  [1 product [host path rawquery]] request via rewriteHandler; output = one observation per op
+//         [8 ops vars]  mod_header reload history: op = [0 [[product [[match last [[cmd params]...]]...]]...]] |
+//                  [1 product reqhdr rsphdr]; output per op: [1] | Err 1 | [reqhdr rsphdr]
+//         [7 ops]  mod_redirect reload history: op = [0 [[product [[match [[cmd params]...] status]...]]...]] | [1 product url];
+//                  output per op: [1] | Err 1 | [0] | [1 location status]
 //         [5 rules [host path rawquery]]                          mod_rewrite: rule file with several rules
 //                                                                 rules = [[match last [[cmd params]...]]...]
 // output: Err 1 (configuration rejected) | [host path rawquery cache] (cache = [] if req.Query is nil else [map]) | [reqhdr rsphdr] (sorted by key) | [url]
@@ -29,6 +35,7 @@ import (
 	"github.com/bfenetworks/bfe/bfe_basic"
 	"github.com/bfenetworks/bfe/bfe_basic/action"
 	"github.com/bfenetworks/bfe/bfe_http"
+	"github.com/bfenetworks/bfe/bfe_module"
 	"github.com/bfenetworks/bfe/bfe_modules/mod_header"
 	"github.com/bfenetworks/bfe/bfe_modules/mod_redirect"
 	"github.com/bfenetworks/bfe/bfe_modules/mod_rewrite"
@@ -128,6 +135,160 @@ type ruleJSON struct {
 	Last    bool
 }
 
+func rulesJSON(v hv.Val) []ruleJSON {
+	rules := []ruleJSON{}
+	for k, rv := range hv.AsList(v) {
+		r := hv.AsList(rv)
+		cond := []string{"default_t()", "default_t() && !(!default_t())"}[k%2]
+		if !hv.AsBool(r[0]) {
+			cond = []string{"!default_t()", "default_t() && !default_t()"}[k%2]
+		}
+		acts := []actJSON{}
+		for _, av := range hv.AsList(r[2]) {
+			a := hv.AsList(av)
+			acts = append(acts, actJSON{hv.AsStr(a[0]), strs(a[1])})
+		}
+		rules = append(rules, ruleJSON{Cond: cond, Actions: acts, Last: hv.AsBool(r[1])})
+	}
+	return rules
+}
+
+var loadSeq int
+
+func runHistory(ops hv.L) hv.Val {
+	mod_rewrite.VerifRewriteResetC49()
+	out := hv.L{}
+	for _, opv := range ops {
+		op := hv.AsList(opv)
+		if hv.AsInt(op[0]) == 1 {
+			req := mkReq(op[2])
+			req.Route.Product = hv.AsStr(op[1])
+			mod_rewrite.VerifRewriteRequestC49(req)
+			out = append(out, stateVal(req))
+			continue
+		}
+		loadSeq++
+		cfg := map[string][]ruleJSON{}
+		for _, pr := range hv.AsList(op[1]) {
+			p := hv.AsList(pr)
+			cfg[hv.AsStr(p[0])] = rulesJSON(p[1])
+		}
+		data, err := json.Marshal(map[string]interface{}{"Version": fmt.Sprintf("v%d", loadSeq), "Config": cfg})
+		if err != nil {
+			return hv.Err(7)
+		}
+		fn := filepath.Join(tmpDir, fmt.Sprintf("rewrite-%d.data", os.Getpid()))
+		if err := ioutil.WriteFile(fn, data, 0644); err != nil {
+			return hv.Err(8)
+		}
+		if err := mod_rewrite.VerifRewriteReloadC49(fn); err != nil {
+			out = append(out, hv.Err(1))
+		} else {
+			out = append(out, hv.L{hv.I(1)})
+		}
+	}
+	return out
+}
+
+type rdRuleJSON struct {
+	Cond    string
+	Actions []actJSON
+	Status  int
+}
+
+func runRedirectHistory(ops hv.L) hv.Val {
+	mod_redirect.VerifRedirectResetC49()
+	out := hv.L{}
+	for _, opv := range ops {
+		op := hv.AsList(opv)
+		if hv.AsInt(op[0]) == 1 {
+			req := mkReq(op[2])
+			req.Route.Product = hv.AsStr(op[1])
+			ret := mod_redirect.VerifRedirectRequestC49(req)
+			switch ret {
+			case bfe_module.BfeHandlerGoOn:
+				out = append(out, hv.L{hv.I(0)})
+			case bfe_module.BfeHandlerRedirect:
+				out = append(out, hv.L{hv.I(1), hv.S(req.Redirect.Url), hv.I(req.Redirect.Code)})
+			default:
+				out = append(out, hv.L{hv.I(2)})
+			}
+			continue
+		}
+		loadSeq++
+		cfg := map[string][]rdRuleJSON{}
+		for _, pr := range hv.AsList(op[1]) {
+			p := hv.AsList(pr)
+			rules := []rdRuleJSON{}
+			for k, rv := range hv.AsList(p[1]) {
+				r := hv.AsList(rv)
+				cond := []string{"default_t()", "default_t() && !(!default_t())"}[k%2]
+				if !hv.AsBool(r[0]) {
+					cond = []string{"!default_t()", "default_t() && !default_t()"}[k%2]
+				}
+				acts := []actJSON{}
+				for _, av := range hv.AsList(r[1]) {
+					a := hv.AsList(av)
+					acts = append(acts, actJSON{hv.AsStr(a[0]), strs(a[1])})
+				}
+				rules = append(rules, rdRuleJSON{Cond: cond, Actions: acts, Status: int(hv.AsInt(r[2]))})
+			}
+			cfg[hv.AsStr(p[0])] = rules
+		}
+		data, err := json.Marshal(map[string]interface{}{"Version": fmt.Sprintf("v%d", loadSeq), "Config": cfg})
+		if err != nil {
+			return hv.Err(7)
+		}
+		fn := filepath.Join(tmpDir, fmt.Sprintf("redirect-%d.data", os.Getpid()))
+		if err := ioutil.WriteFile(fn, data, 0644); err != nil {
+			return hv.Err(8)
+		}
+		if err := mod_redirect.VerifRedirectReloadC49(fn); err != nil {
+			out = append(out, hv.Err(1))
+		} else {
+			out = append(out, hv.L{hv.I(1)})
+		}
+	}
+	return out
+}
+
+func runHeaderHistory(ops hv.L) hv.Val {
+	mod_header.VerifHeaderResetC49()
+	out := hv.L{}
+	for _, opv := range ops {
+		op := hv.AsList(opv)
+		if hv.AsInt(op[0]) == 1 {
+			req := headerReq()
+			req.Route.Product = hv.AsStr(op[1])
+			req.HttpRequest.Header = toHeader(op[2])
+			req.HttpResponse = &bfe_http.Response{StatusCode: 200, Header: toHeader(op[3])}
+			mod_header.VerifHeaderRequestC49(req)
+			out = append(out, hv.L{fromHeader(req.HttpRequest.Header), fromHeader(req.HttpResponse.Header)})
+			continue
+		}
+		loadSeq++
+		cfg := map[string][]ruleJSON{}
+		for _, pr := range hv.AsList(op[1]) {
+			p := hv.AsList(pr)
+			cfg[hv.AsStr(p[0])] = rulesJSON(p[1])
+		}
+		data, err := json.Marshal(map[string]interface{}{"Version": fmt.Sprintf("v%d", loadSeq), "Config": cfg})
+		if err != nil {
+			return hv.Err(7)
+		}
+		fn := filepath.Join(tmpDir, fmt.Sprintf("header-%d.data", os.Getpid()))
+		if err := ioutil.WriteFile(fn, data, 0644); err != nil {
+			return hv.Err(8)
+		}
+		if err := mod_header.VerifHeaderReloadC49(fn); err != nil {
+			out = append(out, hv.Err(1))
+		} else {
+			out = append(out, hv.L{hv.I(1)})
+		}
+	}
+	return out
+}
+
 func runRewrite(rules []ruleJSON, u hv.Val) hv.Val {
 	conf := map[string]interface{}{"Version": "v1", "Config": map[string][]ruleJSON{"p": rules}}
 	data, err := json.Marshal(conf)
@@ -150,22 +311,17 @@ func runRewrite(rules []ruleJSON, u hv.Val) hv.Val {
 func impl(in hv.Val) hv.Val {
 	top := hv.AsList(in)
 	op := hv.AsInt(top[0])
+	if op == 6 {
+		return runHistory(hv.AsList(top[1]))
+	}
+	if op == 7 {
+		return runRedirectHistory(hv.AsList(top[1]))
+	}
+	if op == 8 {
+		return runHeaderHistory(hv.AsList(top[1]))
+	}
 	if op == 5 {
-		var rules []ruleJSON
-		for k, rv := range hv.AsList(top[1]) {
-			r := hv.AsList(rv)
-			cond := []string{"default_t()", "default_t() && !(!default_t())"}[k%2]
-			if !hv.AsBool(r[0]) {
-				cond = []string{"!default_t()", "default_t() && !default_t()"}[k%2]
-			}
-			acts := []actJSON{}
-			for _, av := range hv.AsList(r[2]) {
-				a := hv.AsList(av)
-				acts = append(acts, actJSON{hv.AsStr(a[0]), strs(a[1])})
-			}
-			rules = append(rules, ruleJSON{Cond: cond, Actions: acts, Last: hv.AsBool(r[1])})
-		}
-		return runRewrite(rules, top[2])
+		return runRewrite(rulesJSON(top[1]), top[2])
 	}
 	cmd := hv.AsStr(top[1])
 	params := strs(top[2])
@@ -597,7 +753,227 @@ func arityOK(cmd string, params []string) bool {
 	return true
 }
 
+var rwProducts = []string{"pa", "pb", "pc"}
+
+// reload histories: load v1 -> requests -> reload (product dropped / emptied / changed / invalid file / unchanged) -> requests
+func genHistory(r *hv.Rng) (string, hv.Val) {
+	mkRules := func() hv.Val {
+		_, v := genRules(r)
+		return v.(hv.L)[1]
+	}
+	simple := func() hv.Val { // one valid, visible action
+		return hv.L{hv.L{hv.I(1), hv.I(1), hv.L{hv.L{hv.S("PATH_PREFIX_ADD"), hv.LS([]string{r.Pick([]string{"/v1", "/v2", "/x/"})})}}}}
+	}
+	genConf := func(must string, mustRules hv.Val, drop string) hv.Val {
+		conf := hv.L{}
+		for _, p := range rwProducts {
+			switch {
+			case p == drop:
+			case p == must:
+				conf = append(conf, hv.L{hv.S(p), mustRules})
+			case r.Bool():
+				conf = append(conf, hv.L{hv.S(p), simple()})
+			}
+		}
+		return conf
+	}
+	prod := r.Pick(rwProducts)
+	u := genURL(r, []string{"a", "b"})
+	ops := hv.L{}
+	if r.Chance(1, 8) {
+		ops = append(ops, hv.L{hv.I(1), hv.S(prod), u})
+	}
+	first := simple()
+	if r.Chance(1, 3) {
+		first = mkRules()
+	}
+	ops = append(ops, hv.L{hv.I(0), genConf(prod, first, "")}, hv.L{hv.I(1), hv.S(prod), u})
+	class := "history"
+	for n := r.Range(1, 2); n > 0; n-- {
+		var conf hv.Val
+		switch r.Intn(6) {
+		case 0, 1:
+			conf = genConf("", nil, prod)
+			class = "history-drop"
+		case 2:
+			conf = genConf(prod, hv.L{}, "")
+		case 3:
+			conf = genConf(prod, simple(), "")
+		case 4: // invalid file: the table must stay as it was
+			bad := hv.L{hv.L{hv.I(1), hv.I(1), hv.L{hv.L{hv.S(r.Pick([]string{"PATH_SET", "NO_SUCH", "REQ_HEADER_DEL"})), hv.LS([]string{})}}}}
+			conf = genConf(r.Pick(rwProducts), bad, "")
+			class = "history-badfile"
+		default:
+			conf = genConf(prod, first, "")
+		}
+		ops = append(ops, hv.L{hv.I(0), conf}, hv.L{hv.I(1), hv.S(prod), u})
+		if r.Bool() {
+			ops = append(ops, hv.L{hv.I(1), hv.S(r.Pick(rwProducts)), genURL(r, nil)})
+		}
+	}
+	return class, hv.L{hv.I(6), ops}
+}
+
+// redirect reload histories: rules with match flags (first match decides), products dropped / emptied / changed,
+// invalid files (two actions, no action, status 0, bad scheme)
+func genRedirectHistory(r *hv.Rng) (string, hv.Val) {
+	rule := func() hv.Val {
+		_, v := genRedirect(r)
+		l := v.(hv.L)
+		status := []int{301, 302, 307, 301, 302, 0}[r.Intn(6)]
+		acts := hv.L{hv.L{l[1], l[2]}}
+		switch r.Intn(14) {
+		case 0:
+			acts = hv.L{}
+		case 1:
+			acts = append(acts, hv.L{hv.S("URL_SET"), hv.LS([]string{"/second"})})
+		}
+		return hv.L{hv.Bool(r.Chance(2, 3)), acts, hv.I(status)}
+	}
+	goodRule := func() hv.Val {
+		return hv.L{hv.Bool(r.Chance(3, 4)), hv.L{hv.L{hv.S("URL_SET"), hv.LS([]string{r.Pick([]string{"https://a.example/", "/moved", "/v2"})})}}, hv.I([]int{301, 302}[r.Intn(2)])}
+	}
+	rulesOf := func(clean bool) hv.Val {
+		rs := hv.L{}
+		for n := r.Range(0, 3); n > 0; n-- {
+			if clean || r.Chance(2, 3) {
+				rs = append(rs, goodRule())
+			} else {
+				rs = append(rs, rule())
+			}
+		}
+		return rs
+	}
+	genConf := func(must string, mustRules hv.Val, drop string) hv.Val {
+		conf := hv.L{}
+		for _, p := range rwProducts {
+			switch {
+			case p == drop:
+			case p == must:
+				conf = append(conf, hv.L{hv.S(p), mustRules})
+			case r.Bool():
+				conf = append(conf, hv.L{hv.S(p), rulesOf(true)})
+			}
+		}
+		return conf
+	}
+	prod := r.Pick(rwProducts)
+	u := hv.L{hv.S(r.Pick(hosts)), hv.S(r.Pick(safePaths)), hv.S(genQuery(r, []string{"a", "wd"}))}
+	first := rulesOf(r.Chance(2, 3))
+	ops := hv.L{}
+	if r.Chance(1, 8) {
+		ops = append(ops, hv.L{hv.I(1), hv.S(prod), u})
+	}
+	ops = append(ops, hv.L{hv.I(0), genConf(prod, first, "")}, hv.L{hv.I(1), hv.S(prod), u})
+	class := "rd-history"
+	for n := r.Range(1, 2); n > 0; n-- {
+		var conf hv.Val
+		switch r.Intn(5) {
+		case 0, 1:
+			conf = genConf("", nil, prod)
+			class = "rd-history-drop"
+		case 2:
+			conf = genConf(prod, hv.L{}, "")
+		case 3:
+			conf = genConf(prod, rulesOf(false), "")
+		default:
+			conf = genConf(prod, first, "")
+		}
+		ops = append(ops, hv.L{hv.I(0), conf}, hv.L{hv.I(1), hv.S(prod), u})
+		if r.Bool() {
+			ops = append(ops, hv.L{hv.I(1), hv.S(r.Pick(rwProducts)), u})
+		}
+	}
+	return class, hv.L{hv.I(7), ops}
+}
+
+// header reload histories: rules (match, Last, 1-3 actions of both sides) for "global" and products
+func genHeaderHistory(r *hv.Rng) (string, hv.Val) {
+	allVars := ""
+	action := func(clean bool) hv.Val {
+		for {
+			_, v := genHeader(r)
+			l := v.(hv.L)
+			cmd, params := hv.AsStr(l[1]), strs(l[2])
+			if clean && (len(params) == 0 || params[0] == "" || !strings.Contains(cmd, "_HEADER_") || strings.HasSuffix(cmd, "MOD")) {
+				continue
+			}
+			if len(params) >= 2 {
+				allVars += " " + params[1]
+			}
+			return hv.L{l[1], l[2]}
+		}
+	}
+	rulesOf := func(clean bool) hv.Val {
+		rs := hv.L{}
+		for n := r.Range(1, 3); n > 0; n-- {
+			acts := hv.L{}
+			for k := r.Range(1, 3); k > 0; k-- {
+				acts = append(acts, action(clean))
+			}
+			if !clean && r.Chance(1, 10) {
+				acts = hv.L{}
+			}
+			rs = append(rs, hv.L{hv.Bool(r.Chance(3, 4)), hv.Bool(r.Chance(1, 3)), acts})
+		}
+		return rs
+	}
+	prods := []string{"global", "pa", "pb"}
+	genConf := func(must string, mustRules hv.Val, drop []string) hv.Val {
+		conf := hv.L{}
+		for _, p := range prods {
+			switch {
+			case contains(drop, p):
+			case p == must:
+				conf = append(conf, hv.L{hv.S(p), mustRules})
+			case r.Chance(1, 3):
+				conf = append(conf, hv.L{hv.S(p), rulesOf(true)})
+			}
+		}
+		return conf
+	}
+	prod := r.Pick(prods[1:])
+	rq, rs := genHdr(r), genHdr(r)
+	first := rulesOf(r.Chance(3, 4))
+	ops := hv.L{hv.L{hv.I(0), genConf(prod, first, nil)}, hv.L{hv.I(1), hv.S(prod), rq, rs}}
+	class := "hd-history"
+	for n := r.Range(1, 2); n > 0; n-- {
+		var conf hv.Val
+		switch r.Intn(5) {
+		case 0:
+			conf = genConf("", nil, []string{prod})
+			class = "hd-history-drop"
+		case 1:
+			conf = genConf("", nil, []string{prod, "global"})
+			class = "hd-history-drop"
+		case 2:
+			conf = genConf(prod, rulesOf(false), nil)
+		case 3:
+			conf = genConf("global", rulesOf(true), []string{prod})
+		default:
+			conf = genConf(prod, first, nil)
+		}
+		ops = append(ops, hv.L{hv.I(0), conf}, hv.L{hv.I(1), hv.S(prod), rq, rs})
+		if r.Bool() {
+			ops = append(ops, hv.L{hv.I(1), hv.S(r.Pick(prods[1:])), rq, rs})
+		}
+	}
+	return class, hv.L{hv.I(8), ops, varsFor(allVars)}
+}
+
 func gen(r *hv.Rng, i int, tier string) (string, hv.Val) {
+	if r.Chance(1, 12) {
+		c, v := genHeaderHistory(r)
+		return "header/" + c, v
+	}
+	if r.Chance(1, 12) {
+		c, v := genRedirectHistory(r)
+		return "redirect/" + c, v
+	}
+	if r.Chance(1, 8) {
+		c, v := genHistory(r)
+		return "rules/" + c, v
+	}
 	if r.Chance(1, 5) {
 		c, v := genRules(r)
 		return "rules/" + c, v
@@ -623,9 +999,17 @@ func main() {
 	hv.Main(&hv.Spec{Prop: "C49", Gen: gen, Impl: impl, NQuick: 12000, NThorough: 600000,
 		Setup: func(string) {
 			// one fixed scratch directory, one rule file per process (rewritten for every case)
-			tmpDir = filepath.Join(os.TempDir(), "verif-c49")
+			tmpDir = filepath.Join(scratchRoot(), "verif-c49")
 			if err := os.MkdirAll(tmpDir, 0755); err != nil {
 				panic(err)
 			}
 		}})
+}
+
+// rule files are rewritten for every case: prefer a memory file system
+func scratchRoot() string {
+	if st, err := os.Stat("/dev/shm"); err == nil && st.IsDir() {
+		return "/dev/shm"
+	}
+	return os.TempDir()
 }
